@@ -67,6 +67,20 @@ def atom(expr, lit=None):
     return S(expr, build(expr), 'atom', lit)
 
 
+def safe_atoms(pairs, run=None):
+    """builds the atoms; one that cannot be built is itself a violation (every atom is a valid expression)"""
+    from .common import V
+    out = []
+    for expr, l in pairs:
+        try:
+            out.append(atom(expr, l))
+        except Exception as e:  # noqa: BLE001
+            if run is not None:
+                run.add([V(f'{run.pid}|atom|{expr}|raised:{type(e).__name__}',
+                           f"{expr} is a valid expression but raised {type(e).__name__}: {str(e)[:100]}", 'r = ' + expr)])
+    return out
+
+
 def lit_atom(s):
     return atom('Pregex(%r)' % s, lit=s)
 
